@@ -694,3 +694,19 @@ def gen_susp(rng, full=False):
                       "first": rng.randrange(n) if rng.random() < 0.2 else None, "frames": frames}
     return {"ticks": rng.choice([6, 8, 10, 12, 14]), "period": rng.choice([8, 8, 4, 1]),
             "shares": [0, rng.randrange(3), rng.randrange(3)], "framers": framers}
+
+
+def fill_recs(prog, rng=None):
+    """give every frame a recorder deed in each of the six contexts (needed to observe enter/exit bracketing);
+    new deeds get fresh tags and are inserted at the front of the frame's items"""
+    tags = [it["act"]["tag"] for fr in prog["framers"] for f in fr["frames"] for it in f["items"]
+            if it["t"] == "act" and it["act"]["k"] == "rec"]
+    nxt = max(tags + [0]) + 1
+    for fr in prog["framers"]:
+        for f in fr["frames"]:
+            have = {it["ctx"] for it in f["items"] if it["t"] == "act" and it["act"]["k"] == "rec"}
+            for c in ("enter", "exit", "recur", "renter", "rexit", "precur"):
+                if c not in have:
+                    f["items"].insert(0, {"t": "act", "ctx": c, "act": {"k": "rec", "tag": nxt, "ret": 0}})
+                    nxt += 1
+    return prog
